@@ -30,6 +30,17 @@
                    first and only time, t owns the drain lock, on the target queue;
        CawRet      CawRet: {CANCELED, DELETED} set and unote unregistered;
        Quiesce     ConvergedAtQuiescence: a cancelled, activated source is in the final state.
+   * dispatch_source_set_cancel_handler[_f] after activation (SchCall / SchRet carry the GENERATION the call installs, nul =
+     NULL) and every atomic access to the cancel-handler slot ds_handler[DS_CANCEL_HANDLER] (HN records: continuation
+     addresses as small ids) are bound to the handler part of Cancel.tla (SetCall / STry / SRepl / SPush / IDrain / IPop /
+     IDrepl / CcTake / ChStart): slot values chain; an exchange issued from _dispatch_source_handler_replace is the
+     effect of exactly one call whose effect has not been seen yet (the caller's own call when it is inside one: the
+     try-sync path; otherwise - a drained barrier item - one that no returned-earlier call still precedes: FIFO), under
+     the drain lock, and takes the previous generation out for good (gh.repl); an exchange issued from
+     _dispatch_source_handler_take needs {CANCELED, DELETED} and hands the generation it found to the calling thread;
+     ChStart(t, g) needs exactly that generation in t's hand, never a replaced one, never a second time; at Quiesce every
+     call's effect has been seen, the slot is empty and every generation that was put in the slot has run exactly once
+     unless a replacement took it out (Final of Cancel.tla).
    All other records (dq_state loads, ds_pending_data) are consumed without constraint.
    Not validated here: the dq_state word itself (bound by DQStateConf / LaneWordTrace for C01-C06),
    the spec's pc-level control flow between the logged accesses. *)
@@ -47,8 +58,12 @@ VARIABLES l,        \* next record
           inCaw,    \* threads inside dispatch_source_cancel_and_wait
           act,      \* dispatch_activate / dispatch_resume / cancel_and_wait has been called
           kreg,     \* kernel registration according to the optional probes ("?" unknown, "yes", "no")
-          foreignRet, peerClosed, drift
-tvars == <<vars, l, xk, ld, owner, knownF, knownDU, inCaw, act, kreg, foreignRet, peerClosed, drift>>
+          foreignRet, peerClosed, drift,
+          hs        \* the cancel-handler slot and the calls that change it:
+                    \* [slot: [p, g] (address id, -1 = not seen yet; generation, 0 = NULL), pend: calls whose exchange has not
+                    \*  been seen ([g, nul, bef]), inSch: [thread -> generation of the call it is inside, 0], retd: generations
+                    \*  whose call returned, taken: [thread -> generation it took from the slot and has not started yet, 0]]
+tvars == <<vars, l, xk, ld, owner, knownF, knownDU, inCaw, act, kreg, foreignRet, peerClosed, drift, hs>>
 
 Rec == Tr[l]
 Ev(e) == l <= Len(Tr) /\ Rec.e = e
@@ -56,24 +71,30 @@ Consume == l' = l + 1
 FSet(x) == {x[i] : i \in 1..Len(x)}
 XTimer == xk.kind = "timer"
 XDirect == xk.kind = "data"
-KEEP == <<lane, exe, kern, pc, lv, cli>>       \* Cancel.tla variables the projection does not carry
+KEEP0 == <<lane, exe, kern, pc, lv, cli>>      \* Cancel.tla variables the projection does not carry
+KEEP == <<KEEP0, hs>>
 
-GH0 == [hRunning |-> 0, hStarts |-> 0, ownCancel |-> FALSE, foreignOr |-> FALSE, lateStarts |-> 0,
-        chStarts |-> 0, chEnds |-> 0, cawRet |-> FALSE, startsAfterCaw |-> 0, runningAtCawRet |-> FALSE,
-        regStarts |-> 0, regRunning |-> 0, bad |-> ""]
-SRC0(ch) == [dqf |-> {}, du |-> DU0, installed |-> FALSE, pending |-> 0, hnd |-> [ev |-> TRUE, cancel |-> ch, reg |-> FALSE]]
+GH0(ch) == [hRunning |-> 0, hStarts |-> 0, ownCancel |-> FALSE, foreignOr |-> FALSE, lateStarts |-> 0,
+            chStarts |-> 0, chEnds |-> 0, cawRet |-> FALSE, startsAfterCaw |-> 0, runningAtCawRet |-> FALSE,
+            regStarts |-> 0, regRunning |-> 0, bad |-> "",
+            chS |-> [g \in Gens |-> 0], chE |-> [g \in Gens |-> 0], req |-> {}, inst |-> (IF ch THEN {1} ELSE {}), repl |-> {}]
+HS0(ch) == [slot |-> IF ch THEN [p |-> -1, g |-> 1] ELSE [p |-> 0, g |-> 0], pend |-> {},
+            inSch |-> [t \in TIDs |-> 0], retd |-> {}, taken |-> [t \in TIDs |-> 0]]
+SRC0(ch) == [dqf |-> {}, du |-> DU0, installed |-> FALSE, pending |-> 0,
+             hnd |-> [ev |-> TRUE, cancel |-> IF ch THEN 1 ELSE 0, reg |-> FALSE], items |-> <<>>]
 
 TInit == /\ Init /\ l = 2 /\ xk = [kind |-> "data", serial |-> TRUE, ch |-> TRUE]
          /\ ld = [t \in TIDs |-> {"?"}] /\ owner = -2 /\ knownF = FALSE /\ knownDU = FALSE
          /\ inCaw = {} /\ act = FALSE /\ kreg = "?" /\ foreignRet = FALSE /\ peerClosed = FALSE /\ drift = 0
+         /\ hs = HS0(TRUE)
          /\ TLCSet(1, 0)
 
 TReset == /\ Ev("Reset") /\ Consume
           /\ xk' = [kind |-> Rec.kind, serial |-> Rec.serial, ch |-> Rec.ch]
-          /\ src' = SRC0(Rec.ch) /\ gh' = GH0
+          /\ src' = SRC0(Rec.ch) /\ gh' = GH0(Rec.ch) /\ hs' = HS0(Rec.ch)
           /\ ld' = [t \in TIDs |-> {"?"}] /\ owner' = -2 /\ knownF' = TRUE /\ knownDU' = TRUE
           /\ inCaw' = {} /\ act' = FALSE /\ kreg' = "?" /\ foreignRet' = FALSE /\ peerClosed' = FALSE
-          /\ UNCHANGED <<KEEP, drift>>
+          /\ UNCHANGED <<KEEP0, drift>>
 
 Same == UNCHANGED <<xk, ld, owner, knownF, knownDU, inCaw, act, kreg, foreignRet, peerClosed, drift, KEEP>>
 
@@ -186,14 +207,17 @@ TCawRet ==
 TChStart ==
     /\ Ev("ChStart") /\ Consume
     /\ LET t == Rec.t IN
-       /\ Rec.on /\ OwnerOK(t) /\ xk.ch
+       /\ Rec.on /\ OwnerOK(t)
        /\ Rec.k = 0                                     \* the kernel no longer monitors the descriptor
        /\ kreg # "yes"
-       /\ gh.chStarts = 0 /\ gh.hRunning = 0
+       /\ Rec.g \in Gens /\ hs.taken[t] = Rec.g        \* CcTake: the generation this thread took out of the slot
+       /\ Rec.g \notin gh.repl /\ gh.chS[Rec.g] = 0     \* never a replaced one, never a second time
+       /\ gh.hRunning = 0
        /\ {"CANCELED", "DELETED"} \subseteq src.dqf
        /\ (~XDirect => ~src.du.reg)
-    /\ gh' = [gh EXCEPT !.chStarts = 1]
-    /\ UNCHANGED src /\ Same
+       /\ gh' = [gh EXCEPT !.chStarts = IF @ < 2 THEN @ + 1 ELSE @, !.chS = [@ EXCEPT ![Rec.g] = 1]]
+       /\ hs' = [hs EXCEPT !.taken = [@ EXCEPT ![t] = 0]]
+    /\ UNCHANGED <<src, xk, ld, owner, knownF, knownDU, inCaw, act, kreg, foreignRet, peerClosed, drift, KEEP0>>
 \* IRegh / RTake / RStart: once, on the target queue under the drain lock, before the first event delivery, never on a
 \* source the calling thread has seen cancelled, never after the cancel handler
 TRStart ==
@@ -205,7 +229,8 @@ TRStart ==
     /\ gh' = [gh EXCEPT !.regStarts = 1, !.regRunning = 1]
     /\ UNCHANGED src /\ Same
 TREnd == /\ Ev("REnd") /\ Consume /\ gh.regRunning = 1 /\ gh' = [gh EXCEPT !.regRunning = 0] /\ UNCHANGED src /\ Same
-TChEnd == /\ Ev("ChEnd") /\ Consume /\ gh.chStarts = 1 /\ gh.chEnds = 0 /\ gh' = [gh EXCEPT !.chEnds = 1]
+TChEnd == /\ Ev("ChEnd") /\ Consume /\ Rec.g \in Gens /\ gh.chS[Rec.g] = 1 /\ gh.chE[Rec.g] = 0
+          /\ gh' = [gh EXCEPT !.chEnds = IF @ < 2 THEN @ + 1 ELSE @, !.chE = [@ EXCEPT ![Rec.g] = 1]]
           /\ UNCHANGED src /\ Same
 TAct == /\ Ev("ActCall") /\ Consume /\ act' = TRUE
         /\ UNCHANGED <<src, gh, xk, ld, owner, knownF, knownDU, inCaw, kreg, foreignRet, peerClosed, drift, KEEP>>
@@ -218,12 +243,60 @@ TQuiesce ==
     /\ ("CANCELED" \in src.dqf /\ act) =>
           /\ "DELETED" \in src.dqf /\ "CANCEL_WAITER" \notin src.dqf /\ "NEEDS_EVENT" \notin src.dqf
           /\ (~XDirect => ~src.du.reg)
-          /\ (xk.ch => gh.chEnds = 1)
+          \* Final of Cancel.tla, handler part: every call's exchange has been seen, the slot is empty, nothing is in a
+          \* thread's hand, every generation that was put in the slot ran once unless a replacement took it out
+          /\ hs.pend = {} /\ hs.slot.g = 0 /\ hs.slot.p \in {0, -1} /\ (\A t \in TIDs : hs.taken[t] = 0 /\ hs.inSch[t] = 0)
+          /\ gh.req \subseteq gh.inst
+          /\ (\A g \in gh.inst \ gh.repl : gh.chE[g] = 1)
+          /\ (\A g \in Gens : gh.chE[g] = gh.chS[g])
     /\ UNCHANGED <<src, gh>> /\ Same
 TOther == /\ l <= Len(Tr) /\ Rec.e \in {"ActRet", "SuspCall", "SuspRet", "ResCall", "ResRet"} /\ Consume
           /\ UNCHANGED <<src, gh>> /\ Same
 
-TNext == TReset \/ TF \/ TDU \/ TST \/ TPD \/ TP \/ THStart \/ THEnd \/ TCancelCall \/ TCancelRet \/ TCawCall \/ TCawRet
+(* ------------------ dispatch_source_set_cancel_handler[_f] after activation; the cancel-handler slot ------------------ *)
+PendGens == {q.g : q \in hs.pend}
+TSchCall ==
+    /\ Ev("SchCall") /\ Consume
+    /\ LET t == Rec.t  g == Rec.g IN
+       /\ g \in Gens /\ g \notin PendGens \cup hs.retd \cup gh.inst /\ hs.inSch[t] = 0
+       /\ act                                          \* SetCall: on an activated source
+       /\ hs' = [hs EXCEPT !.pend = @ \cup {[g |-> g, nul |-> Rec.nul, bef |-> PendGens \cap hs.retd]},
+                           !.inSch = [@ EXCEPT ![t] = g]]
+       /\ gh' = [gh EXCEPT !.req = IF Rec.nul THEN @ ELSE @ \cup {g}]
+    /\ UNCHANGED <<src, xk, ld, owner, knownF, knownDU, inCaw, act, kreg, foreignRet, peerClosed, drift, KEEP0>>
+TSchRet ==
+    /\ Ev("SchRet") /\ Consume
+    /\ hs.inSch[Rec.t] = Rec.g
+    /\ hs' = [hs EXCEPT !.inSch = [@ EXCEPT ![Rec.t] = 0], !.retd = @ \cup {Rec.g}]
+    /\ UNCHANGED <<src, gh, xk, ld, owner, knownF, knownDU, inCaw, act, kreg, foreignRet, peerClosed, drift, KEEP0>>
+HChain(old) == hs.slot.p = -1 \/ old = hs.slot.p
+\* CcTake (ICallout / CawL2 before it): the slot is emptied into the calling thread's hand
+HTake(t, old, new) ==
+    /\ new = 0 /\ HChain(old)
+    /\ {"CANCELED", "DELETED"} \subseteq src.dqf
+    /\ OwnerOK(t) \/ t \in inCaw
+    /\ (old # 0 => hs.taken[t] = 0 /\ hs.slot.g # 0)
+    /\ hs' = [hs EXCEPT !.slot = [p |-> 0, g |-> 0], !.taken = [@ EXCEPT ![t] = IF old # 0 THEN hs.slot.g ELSE @]]
+    /\ gh' = gh
+\* SRepl / IDrepl: the effect of one call, under the source's barrier
+HReplace(t, old, new) ==
+    /\ HChain(old) /\ OwnerOK(t)
+    /\ \E q \in hs.pend :
+          /\ q.nul = (new = 0)
+          /\ IF hs.inSch[t] # 0 THEN q.g = hs.inSch[t] ELSE q.bef \cap PendGens = {}
+          /\ hs' = [hs EXCEPT !.slot = [p |-> new, g |-> IF q.nul THEN 0 ELSE q.g], !.pend = @ \ {q}]
+          /\ gh' = [gh EXCEPT !.inst = IF q.nul THEN @ ELSE @ \cup {q.g},
+                              !.repl = IF hs.slot.g # 0 THEN @ \cup {hs.slot.g} ELSE @]
+THN ==
+    /\ Ev("HN") /\ Consume
+    /\ LET t == Rec.t  old == Rec.old  new == Rec.new IN
+       CASE Rec.op = "load" -> /\ HChain(old) /\ hs' = [hs EXCEPT !.slot = [@ EXCEPT !.p = old]] /\ UNCHANGED <<gh, drift>>
+         [] Rec.op = "xchg" /\ Rec.f = "_dispatch_source_handler_take" -> HTake(t, old, new) /\ drift' = drift
+         [] Rec.op = "xchg" /\ Rec.f = "_dispatch_source_handler_replace" -> HReplace(t, old, new) /\ drift' = drift
+         [] OTHER -> /\ Rec.op = "xchg" /\ (HTake(t, old, new) \/ HReplace(t, old, new)) /\ drift' = drift + 1   \* moved / renamed code
+    /\ UNCHANGED <<src, xk, ld, owner, knownF, knownDU, inCaw, act, kreg, foreignRet, peerClosed, KEEP0>>
+
+TNext == TSchCall \/ TSchRet \/ THN \/ TReset \/ TF \/ TDU \/ TST \/ TPD \/ TP \/ THStart \/ THEnd \/ TCancelCall \/ TCancelRet \/ TCawCall \/ TCawRet
          \/ TChStart \/ TChEnd \/ TRStart \/ TREnd \/ TAct \/ TPeerClose \/ TQuiesce \/ TOther
 TSpec == TInit /\ [][TNext]_tvars
 
